@@ -31,7 +31,7 @@ PROFILE = gen.profile(
     p_reuse=0.2,
     max_nodes=12,
     kinds=1,
-    exc_cls=["exc", "exc", "falsy", "frozen", "tasky"],
+    exc_cls=["exc", "exc", "falsy", "frozen", "tasky", "cached"],
     try_kinds=["exc", "exc", "none"],
     w_stmt=dict(sync=0, raise_=0.5, try_=2.0, with_=0, ret=0.3, orphan=0, read=0, probe=0.5),
     w_leaf=dict(call=8, item=0, const=2.5, none=1.2, err=0, lazy=0, again=0, junk=0, dbg=0, constexc=1.0),
@@ -78,7 +78,12 @@ def run_unit(unit, progress):
     for i in range(a, b):
         progress(i)
         cs = tl.case_seed(unit["seed"], ID, i)
-        prog = gen.generate(cs, PROFILE)
+        if i % 10 == 4:
+            # one cached error object caught again and again by a body that keeps awaiting
+            prog = gen.recatch_program(random.Random(cs))
+            inc("programs_recatching_one_cached_error_object")
+        else:
+            prog = gen.generate(cs, PROFILE)
         fix_ret(prog)
         try:
             exp, rrt = ref.evaluate(prog)
@@ -168,6 +173,7 @@ def run_unit(unit, progress):
         for v in rt.violations[:2]:
             viol.append((v["oracle"], v["detail"]))
         inc("exception_deliveries_under_asyncio", getattr(rt, "n_exc_resumes", 0))
+        inc("raises_of_a_cached_error_object", getattr(rt, "n_cached_raises", 0))
         feats = lang.prog_features(prog)
         # yields with >= 2 failing awaitables (from the reference)
         inc("programs")
@@ -201,7 +207,7 @@ def run_unit(unit, progress):
 
 def reach(c, tier):
     out = []
-    for k in ("exception_deliveries_under_asyncio", "programs_yielding_again_after_a_catch", "programs_with_dict_yields", "sync_call_probes", "observer_samples", "styles_explicit_asyncio_fn", "styles_method_like", "styles_proxy", "programs_ending_in_exception"):
+    for k in ("exception_deliveries_under_asyncio", "programs_yielding_again_after_a_catch", "programs_with_dict_yields", "sync_call_probes", "observer_samples", "styles_explicit_asyncio_fn", "styles_method_like", "styles_proxy", "programs_ending_in_exception", "programs_recatching_one_cached_error_object", "raises_of_a_cached_error_object"):
         if not c.get(k):
             out.append("%s is zero" % k)
     return out
